@@ -187,6 +187,13 @@ Op      == T.op
 OpFits  == Op.kind \in KindsOf(T.mode)
              /\ (T.mode = "all" \/ ParsesIn(T.mode, Op.kind, Op.s, Op.p, 1, Op.alts, FALSE))
 
+(* domain restriction OperandNotInMode: the result is structurally the operand *)
+(* itself (no conversion happened) and the operand's own text does not parse   *)
+(* in the mode to the operand's tree - e.g. FST('a', 'Tuple'), a Tuple built   *)
+(* by '_expr_arglikes' spanning its whole source, `yield` asked as a slice.     *)
+(* Whether such an operand is a valid tree is C05's subject, not coercion's.   *)
+OperandNotInMode(r) == r.s = Op.s /\ r.kind = Op.kind /\ ~OpFits
+
 Preserved(e) == e.copy \/ ~e.root         \* the operand must survive the call
 
 CoerceClauses(e) ==
@@ -194,9 +201,9 @@ CoerceClauses(e) ==
   (IF e.outcome = "ok"
    THEN { Cl("Standalone", r.isroot),
           Cl("KindInMode", r.kind \in KindsOf(m) /\ r.kind = Kind(r.s)) }
-        \cup (IF EmptySetForm(r.s) THEN {}
-              ELSE { Cl("ParsesInMode", ParsesIn(m, r.kind, r.s, r.p, r.ntok, r.alts, FALSE)),
-                     Cl("Leaves", Leaves(r.s) = Leaves(Op.s)) })
+        \cup (IF EmptySetForm(r.s) THEN {} ELSE {Cl("Leaves", Leaves(r.s) = Leaves(Op.s))})
+        \cup (IF EmptySetForm(r.s) \/ OperandNotInMode(r) THEN {}
+              ELSE {Cl("ParsesInMode", ParsesIn(m, r.kind, r.s, r.p, r.ntok, r.alts, FALSE))})
         \cup (IF ~r.same /\ r.s # Op.s /\ ~EmptySetForm(r.s)
               THEN {Cl("ParsesInMode.ctx", ParsesIn(m, r.kind, r.s, r.p, r.ntok, r.alts, TRUE))} ELSE {})
         \cup (IF OpFits
